@@ -463,6 +463,57 @@ func c02Alphabet(k ref.Kind, l geom.Layout) []c02Op {
 		if l != geom.XY && l != geom.XYZ && l != geom.XYM {
 			ops = append(ops, c02ReserveOp())
 		}
+		ops = append(ops, c02Op{"Swap(a geometry of another layout) and back", func(s *c02State) string {
+			// Swap exchanges the two values COMPLETELY, whatever their layouts: after the exchange the
+			// receiver is the other geometry (layout, stride, parts) and the other one is the receiver
+			wl := wrongLayouts(l)[len(wrongLayouts(l))-1]
+			x := freshMulti(k, wl)
+			xm := &c02Model{kind: k, layout: wl}
+			menu := partMenu(k, wl)
+			for _, pm := range []*ref.G{menu[len(menu)-1], menu[0]} {
+				if err := pushPart(x, pm.MustBuild()); err != nil {
+					return "Push failed: " + err.Error()
+				}
+				xm.parts = append(xm.parts, pm.Clone())
+			}
+			swapT(s.g, x)
+			probe := &c02State{kind: k, layout: wl, g: s.g, m: xm, other: x, om: s.m}
+			if d := c02Invariants(probe); d != "" {
+				return "after Swap with a " + wl.String() + " geometry: " + d
+			}
+			if s.g.Stride() != wl.Stride() || x.Stride() != l.Stride() {
+				return fmt.Sprintf("after Swap with a %s geometry: strides %d / %d, want %d / %d", wl, s.g.Stride(), x.Stride(), wl.Stride(), l.Stride())
+			}
+			swapT(s.g, x)
+			return ""
+		}})
+		if k == ref.MultiPolygon {
+			ops = append(ops, c02Op{"Push a ring into the polygon handed out for the first member without rings", func(s *c02State) string {
+				// the accessor's result for a member without rings is the caller's own value: what
+				// the caller does to it reaches neither this multipolygon nor any other
+				mp := s.g.(*geom.MultiPolygon)
+				for i, pm := range s.m.parts {
+					if len(pm.C2) != 0 {
+						continue
+					}
+					q := mp.Polygon(i)
+					ring := partMenu(ref.Polygon, l)
+					if err := q.Push(ring[len(ring)-1].MustBuild().(*geom.LinearRing)); err != nil {
+						return "Push into the accessor's polygon failed: " + err.Error()
+					}
+					q.SetSRID(99)
+					other := geom.NewMultiPolygon(l)
+					if err := other.Push(geom.NewPolygon(l)); err != nil {
+						return err.Error()
+					}
+					if r := other.Polygon(0); r.NumLinearRings() != 0 || r.SRID() != 0 {
+						return "the polygon handed out for an empty member of ANOTHER multipolygon shows what a caller did to an earlier one"
+					}
+					break
+				}
+				return ""
+			}})
+		}
 		ops = append(ops, c02Op{"Swap(the receiver itself)", func(s *c02State) string {
 			swapT(s.g, s.g) // exchanging a value with itself leaves it as it is
 			return ""
@@ -773,12 +824,21 @@ func c02Exec(c *engine.Ctx, cs c02Case, onState func(key string)) {
 	var s *c02State
 	fail := ""
 	failStep := -1
+	canaryBefore := c02Canary(cs.Layout)
 	p, stack := engine.Guard(func() {
 		s = c02Init(cs.Kind, cs.Layout, cs.Init)
 		for i, o := range cs.Ops {
 			if d := ops[o].apply(s); d != "" {
 				fail, failStep = d, i
 				return
+			}
+			if i == len(cs.Ops)-1 && canaryBefore == "" {
+				// what this history did to ITS objects reaches no unrelated, freshly made geometry
+				// (clean before, not clean after: this history is the one that leaked)
+				if d := c02Canary(cs.Layout); d != "" {
+					fail, failStep = "state leaked into unrelated geometries: "+d, i
+					return
+				}
 			}
 			// prefix states were checked when they were first reached; the last one is new
 			if i == len(cs.Ops)-1 {
@@ -811,6 +871,41 @@ func c02Exec(c *engine.Ctx, cs c02Case, onState func(key string)) {
 	if onState != nil {
 		onState(s.key())
 	}
+}
+
+// c02Canary: freshly made multi-part geometries with one empty part each hand out an empty part
+// (no coordinates, no rings, SRID 0), whatever any caller did to parts handed out before.
+func c02Canary(l geom.Layout) string {
+	if l.Stride() == 0 {
+		return ""
+	}
+	d := ""
+	engine.Guard(func() {
+		mp := geom.NewMultiPolygon(l)
+		_ = mp.Push(geom.NewPolygon(l))
+		if q := mp.Polygon(0); q.NumLinearRings() != 0 || len(q.FlatCoords()) != 0 || q.SRID() != 0 || q.Layout() != l {
+			d = fmt.Sprintf("the polygon handed out for the empty member of a new multipolygon has %d rings, %d ordinates, SRID %d", q.NumLinearRings(), len(q.FlatCoords()), q.SRID())
+			return
+		}
+		ml := geom.NewMultiLineString(l)
+		_ = ml.Push(geom.NewLineString(l))
+		if q := ml.LineString(0); len(q.FlatCoords()) != 0 || q.SRID() != 0 || q.Layout() != l {
+			d = fmt.Sprintf("the line handed out for the empty member of a new multi-line has %d ordinates, SRID %d", len(q.FlatCoords()), q.SRID())
+			return
+		}
+		pg := geom.NewPolygon(l)
+		_ = pg.Push(geom.NewLinearRing(l))
+		if q := pg.LinearRing(0); len(q.FlatCoords()) != 0 || q.SRID() != 0 || q.Layout() != l {
+			d = fmt.Sprintf("the ring handed out for the empty ring of a new polygon has %d ordinates, SRID %d", len(q.FlatCoords()), q.SRID())
+			return
+		}
+		mpt := geom.NewMultiPoint(l)
+		_ = mpt.Push(geom.NewPointEmpty(l))
+		if q := mpt.Point(0); len(q.FlatCoords()) != 0 || q.SRID() != 0 || q.Layout() != l {
+			d = fmt.Sprintf("the point handed out for the empty member of a new multipoint has %d ordinates, SRID %d", len(q.FlatCoords()), q.SRID())
+		}
+	})
+	return d
 }
 
 func classify(s string) string {
